@@ -566,6 +566,23 @@ def addChild (fl : Flags) (f i : Id) (s : St) : St :=
   addFresh fl f ⟨tCHIL, ident ((abs s).ptr i), [], [], f⟩
     (addFresh fl i ⟨tFAMC, ident ((abs s).ptr f), [], [], 0⟩ s)
 
+/-- `AddBirthDate` / `AddBaptismDate` / `AddDeathDate` / `AddBurialDate`: the first event of that
+    kind (`First(node.Births())` …, a cached read) — created and appended if there is none — gets
+    one more DATE child -/
+def addEventDate (fl : Flags) (i : Id) (t v : Str) (s : St) : St :=
+  match (nwt i t s).1.head? with
+  | some e => addFresh fl e ⟨tDATE, v, [], [], 0⟩ (nwt i t s).2
+  | none =>
+    addFresh fl (nwt i t s).2.heap.length ⟨tDATE, v, [], [], 0⟩
+      (addFresh fl i ⟨t, [], [], [], 0⟩ (nwt i t s).2)
+
+/-- `SetSex`: the value of the first SEX child (a cached read) is overwritten in place; without
+    one a SEX child is appended -/
+def setSex (fl : Flags) (i : Id) (v : Str) (s : St) : St :=
+  match (nwt i tSEX s).1.head? with
+  | some x => { (nwt i tSEX s).2 with heap := setValue (nwt i tSEX s).2.heap x v }
+  | none => addFresh fl i ⟨tSEX, v, [], [], 0⟩ (nwt i tSEX s).2
+
 /-- `Document.AddIndividual(ptr)` -/
 def addIndividual (fl : Flags) (p : Str) (s : St) : St :=
   let s := docAppend fl ⟨tINDI, [], p, [], 0⟩ s
@@ -595,27 +612,28 @@ def initOf (heap : List NodeRec) (roots : List Id) : St :=
 
 /-! ## between node trees and the heap -/
 
+/-- ids of the root nodes of a forest laid out in preorder from id `b` on -/
+def rootsAt (b : Nat) : List Node → List Id
+  | [] => []
+  | n :: ns => b :: rootsAt (b + n.size) ns
+
 mutual
-/-- preorder allocation of a decoded tree; `fam` = most recent FAM record seen (the decoder's
-    `family` cursor) -/
-def allocNode : Node → List NodeRec × Id → (List NodeRec × Id) × Id
-  | .mk t v p ks, (heap, fam) =>
-    let id := heap.length
-    let fam := if t == tFAM then id else fam
-    let r := allocForest ks (heap ++ [⟨t, v, p, [], fam⟩], fam)
-    ((setKids r.1.1 id r.2, r.1.2), id)
-def allocForest : List Node → List NodeRec × Id → (List NodeRec × Id) × List Id
-  | [], st => (st, [])
-  | n :: ns, st =>
-    let r1 := allocNode n st
-    let r2 := allocForest ns r1.1
-    (r2.1, r1.2 :: r2.2)
+/-- preorder layout of a decoded tree from id `b` on (allocation = append, so a node's id is its
+    preorder position); `fam` = most recent FAM record seen (the decoder's `family` cursor).
+    Returns the records and the cursor afterwards. -/
+def flatNode (b : Nat) (fam : Id) : Node → List NodeRec × Id
+  | .mk t v p ks =>
+    let r := flatForest (b + 1) (if t == tFAM then b else fam) ks
+    (⟨t, v, p, rootsAt (b + 1) ks, if t == tFAM then b else fam⟩ :: r.1, r.2)
+def flatForest (b : Nat) (fam : Id) : List Node → List NodeRec × Id
+  | [] => ([], fam)
+  | n :: ns =>
+    ((flatNode b fam n).1 ++ (flatForest (b + n.size) (flatNode b fam n).2 ns).1,
+     (flatForest (b + n.size) (flatNode b fam n).2 ns).2)
 end
 
 /-- the state right after decoding: what `NewDocumentFromString` builds from a forest -/
-def ofForest (f : Forest) : St :=
-  let r := allocForest f ([], 0)
-  initOf r.1.1 r.2
+def ofForest (f : Forest) : St := initOf (flatForest 0 0 f).1 (rootsAt 0 f)
 
 /-- the tree below node `n` (cut at depth `fuel`; `heap.length` suffices for a tree-shaped heap) -/
 def toNode (a : Abs) : Nat → Id → Node
@@ -697,6 +715,10 @@ inductive Op
   | setHusbandPointer (f : Id) (p : Str)
   | setWifePointer (f : Id) (p : Str)
   | addChild (f i : Id)
+  /-- `i.AddBirthDate(v)` (tag BIRT), `AddBaptismDate` (BAPM), `AddDeathDate` (DEAT), `AddBurialDate` (BURI) -/
+  | addEventDate (i : Id) (tag v : Str)
+  /-- `i.SetSex(v)` -/
+  | setSex (i : Id) (v : Str)
   | read (v : View)
   /-- `doc.Warnings()` -/
   | warnings
@@ -784,6 +806,8 @@ def Op.ok (a : Abs) : Op → Bool
   | .setHusband f i | .setWife f i => isFam a f && (match i with | some i => isIndi a i | none => true)
   | .setHusbandPointer f _ | .setWifePointer f _ => isFam a f
   | .addChild f i => isFam a f && isIndi a i
+  | .addEventDate i t _ => isIndi a i && (t == tBIRT || t == tBAPM || t == tDEAT || t == tBURI)
+  | .setSex i _ => isIndi a i
   | .read v => v.ok a
   | .warnings | .string | .foreign | .inert => true
   | .gedcomString n => n < a.heap.length
@@ -809,6 +833,8 @@ def exec (fl : Flags) (s : St) : Op → St × Obs
   | .setHusbandPointer f p => (setSpousePointer fl true f p s, .none)
   | .setWifePointer f p => (setSpousePointer fl false f p s, .none)
   | .addChild f i => (addChild fl f i s, .none)
+  | .addEventDate i t v => (addEventDate fl i t v s, .none)
+  | .setSex i v => (setSex fl i v s, .none)
   | .read v => let r := runView v s; (r.2, r.1)
   | .warnings => (if fl.warningsReadOnly then (warningsRead s).2 else warningsCopying fl s, .none)
   | .string => (s, .text (Dec.encForest 0 (toForest (abs s))))
